@@ -4,6 +4,9 @@
 package poolctl
 
 import (
+	"fmt"
+	"syscall"
+
 	vs "pipelined.dev/signal/verifsync"
 )
 
@@ -18,6 +21,7 @@ type Seq struct {
 	Puts   int
 	News   int
 	held   map[*vs.Mutex]bool
+	tid    int
 }
 
 func NewSeq(choose func(n int) int) *Seq {
@@ -25,6 +29,9 @@ func NewSeq(choose func(n int) int) *Seq {
 }
 
 func (s *Seq) PoolGet(p *vs.Pool) (any, bool) {
+	if t := syscall.Gettid(); t != s.tid {
+		panic(fmt.Sprintf("poolctl: Get routed to the controller bound on thread %d from thread %d", s.tid, t))
+	}
 	s.Gets++
 	fl := s.Free[p]
 	k := len(fl)
@@ -75,5 +82,11 @@ func (s *Seq) Unlock(m *vs.Mutex) { delete(s.held, m) }
 // Bind attaches s to the calling goroutine; the returned function detaches it.
 func (s *Seq) Bind() func() {
 	vs.Bind(s)
-	return vs.Unbind
+	s.tid = syscall.Gettid()
+	return func() {
+		if t := syscall.Gettid(); t != s.tid {
+			panic(fmt.Sprintf("poolctl: bound on thread %d, unbinding on thread %d", s.tid, t))
+		}
+		vs.Unbind()
+	}
 }
